@@ -276,7 +276,9 @@ class Node:
                 self.lp.handle_remote_peer_selector_event(key, selectors.EVENT_READ)
             elif kind == 'write':
                 self.lp.handle_remote_peer_selector_event(key, selectors.EVENT_WRITE)
-        except BaseException as e:   # the property: nothing may escape the per-connection handler
+        except BaseException as e:
+            if getattr(e, 'harness_abort', False):
+                raise                    # the harness's own watchdog / kill signal is not an implementation exception   # the property: nothing may escape the per-connection handler
             self.escaped.append((kind, repr(e)))
 
     def step(self, t=None):
@@ -286,6 +288,8 @@ class Node:
         try:
             self.lp.step_managers(self.net.clock())
         except BaseException as e:
+            if getattr(e, 'harness_abort', False):
+                raise                    # the harness's own watchdog / kill signal is not an implementation exception
             self.escaped.append(('step', repr(e)))
 
     def accept_pending(self):
@@ -294,6 +298,8 @@ class Node:
             try:
                 self.lp.handle_incoming_connection(self.lsock)
             except BaseException as e:
+                if getattr(e, 'harness_abort', False):
+                    raise                # the harness's own watchdog / kill signal is not an implementation exception
                 self.escaped.append(('accept', repr(e)))
 
     def close(self):
